@@ -414,22 +414,24 @@ class GeoPolygon(PolygonBase, SimpleShapeMixin):
         Returns:
             bool
         """
-        test_line = (coord, Coordinate(180, float(coord.latitude)))
-        _intersections = 0
-        for edge in zip(polygon, [*polygon[1:], polygon[0]]):
-            intersection = find_line_intersection(test_line, edge)
-            if not intersection:
-                continue
-
-            if intersection[1] and not include_boundary:
+        x, y = coord.longitude, coord.latitude
+        inside = False
+        for start, end in zip(polygon, [*polygon[1:], polygon[0]]):
+            x1, y1, x2, y2 = start.longitude, start.latitude, end.longitude, end.latitude
+            cross = (x2 - x1) * (y - y1) - (y2 - y1) * (x - x1)
+            if (
+                cross == 0
+                and min(x1, x2) <= x <= max(x1, x2)
+                and min(y1, y2) <= y <= max(y1, y2)
+            ):
                 # Lies on boundary, no need to continue
-                return False
+                return include_boundary
 
-            if include_boundary or not intersection[1]:
-                # If boundaries are allowed, or is not a boundary intersection
-                _intersections += 1
+            # Half-open rule: an edge is crossed when exactly one endpoint is above the ray
+            if (y1 > y) != (y2 > y) and ((cross > 0) == (y2 > y1)):
+                inside = not inside
 
-        return _intersections > 0 and _intersections % 2 != 0
+        return inside
 
     def bounding_coords(self, **kwargs) -> List[Coordinate]:
         return self.outline
